@@ -29,7 +29,7 @@ func TestMain(m *testing.M) { kit.Main(m, "C02") }
 
 // Conn is the script of one client connection.
 type Conn struct {
-	Mode        string   `json:"mode"`                  // plain | blind | mitm
+	Mode        string   `json:"mode"`                  // plain | blind | mitm | mitm-plain (MITM configured, plain HTTP sent through the tunnel)
 	ConnectBeh  string   `json:"connect_beh,omitempty"` // behaviour on the CONNECT itself
 	Unreachable bool     `json:"unreachable,omitempty"` // blind: the target cannot be dialled
 	Inner       []string `json:"inner"`                 // behaviours of the (inner) requests
@@ -45,6 +45,12 @@ type Case struct {
 	// MultilineErrors: modifier errors carry a newline, quotes and a backslash
 	// (as an aggregated MultiError does); they must still travel in a Warning header.
 	MultilineErrors bool `json:"multiline_errors,omitempty"`
+	// ErrValue: which error VALUE the failing modifiers return: "" = a fresh
+	// error carrying the exchange id; "eof" = io.EOF itself (json.Decoder on an
+	// empty body); "closed-pipe" = io.ErrClosedPipe; "timeout" = a net.Error whose
+	// Timeout() is true (a modifier's own lookup timed out). Whatever its value,
+	// a modifier error is a Warning header, never the end of the exchange.
+	ErrValue string `json:"err_value,omitempty"`
 	// Downstream: blind CONNECTs go through a downstream proxy; "credentials"
 	// configures it with user:password in its URL.
 	Downstream string `json:"downstream,omitempty"`
@@ -117,15 +123,41 @@ type call struct {
 }
 
 type probe struct {
-	mu    sync.Mutex
-	clock *int64
-	calls []call
-	reqOf map[string]*http.Request
-	mitm  map[string]bool // ids whose hijack must stay silent (TLS inside)
-	multi bool
+	mu       sync.Mutex
+	clock    *int64
+	calls    []call
+	reqOf    map[string]*http.Request
+	mitm     map[string]bool // ids whose hijack must stay silent (TLS inside)
+	multi    bool
+	errValue string
+}
+
+type timeoutErr struct{ msg string }
+
+func (e timeoutErr) Error() string   { return e.msg }
+func (e timeoutErr) Timeout() bool   { return true }
+func (e timeoutErr) Temporary() bool { return true }
+
+// wantErrText is what the Warning header must contain for a failing modifier.
+func wantErrText(errValue, kind, id string) string {
+	switch errValue {
+	case "eof":
+		return io.EOF.Error()
+	case "closed-pipe":
+		return io.ErrClosedPipe.Error()
+	}
+	return "verif-" + kind + "-" + id
 }
 
 func (p *probe) errText(kind, id string) error {
+	switch p.errValue {
+	case "eof":
+		return io.EOF
+	case "closed-pipe":
+		return io.ErrClosedPipe
+	case "timeout":
+		return timeoutErr{"verif-" + kind + "-" + id}
+	}
 	if p.multi {
 		return fmt.Errorf("verif-%s-%s\nsecond \"line\" with a \\ backslash\tand a tab", kind, id)
 	}
@@ -341,10 +373,10 @@ func runOnce(c Case, T time.Duration) (v kit.Verdict) {
 		return plainOrigin.Addr
 	}}
 
-	pb := &probe{clock: &clock, reqOf: map[string]*http.Request{}, mitm: map[string]bool{}, multi: c.MultilineErrors}
+	pb := &probe{clock: &clock, reqOf: map[string]*http.Request{}, mitm: map[string]bool{}, multi: c.MultilineErrors, errValue: c.ErrValue}
 	needMITM := false
 	for _, cn := range c.Conns {
-		if cn.Mode == "mitm" {
+		if cn.Mode == "mitm" || cn.Mode == "mitm-plain" {
 			needMITM = true
 		}
 	}
@@ -477,6 +509,9 @@ func runOnce(c Case, T time.Duration) (v kit.Verdict) {
 			if cn.Mode != "plain" {
 				id := fmt.Sprintf("c%d-connect", ci)
 				host := "secure.test:443"
+				if cn.Mode == "mitm-plain" {
+					host = "origin.test:80"
+				}
 				if cn.Mode == "blind" {
 					host = "echo.test:7"
 					if cn.Unreachable {
@@ -514,7 +549,7 @@ func runOnce(c Case, T time.Duration) (v kit.Verdict) {
 					addf("C02/connect/"+cn.Mode+"/status", "CONNECT %s answered %d, want %d", id, res.StatusCode, wantStatus)
 					return
 				}
-				if cn.ConnectBeh == bResErr && !strings.Contains(strings.Join(res.Header["Warning"], " | "), "verif-reserr-"+id) {
+				if cn.ConnectBeh == bResErr && !strings.Contains(strings.Join(res.Header["Warning"], " | "), wantErrText(c.ErrValue, "reserr", id)) {
 					addf("C02/error/"+cn.Mode+"-connect/response-error-not-in-warning", "CONNECT %s: response modifier returned an error but the client's Warning headers are %q", id, res.Header["Warning"])
 				}
 				if cn.ConnectBeh == bMutate && res.Header.Get("X-Mutated-Res") != id {
@@ -548,16 +583,19 @@ func runOnce(c Case, T time.Duration) (v kit.Verdict) {
 					br.ReadString('\n')
 					return
 				}
-				// mitm: upgrade
-				tc := tls.Client(raw, &tls.Config{ServerName: "secure.test", RootCAs: mitmPool})
-				tc.SetDeadline(time.Now().Add(T))
-				if err := tc.Handshake(); err != nil {
-					addf("C02/connect/mitm/handshake", "TLS handshake inside the tunnel failed: %v", err)
-					return
+				// mitm: upgrade (mitm-plain: cleartext HTTP inside the tunnel - every
+				// request in it is still an exchange of its own)
+				if cn.Mode == "mitm" {
+					tc := tls.Client(raw, &tls.Config{ServerName: "secure.test", RootCAs: mitmPool})
+					tc.SetDeadline(time.Now().Add(T))
+					if err := tc.Handshake(); err != nil {
+						addf("C02/connect/mitm/handshake", "TLS handshake inside the tunnel failed: %v", err)
+						return
+					}
+					conn = tc
+					br = bufio.NewReader(tc)
+					tlsInside = true
 				}
-				conn = tc
-				br = bufio.NewReader(tc)
-				tlsInside = true
 			}
 			if cn.Mode == "blind" {
 				return
@@ -573,9 +611,11 @@ func runOnce(c Case, T time.Duration) (v kit.Verdict) {
 				target, host := "http://origin.test/"+id, "origin.test"
 				if tlsInside {
 					target, host = "/"+id, "secure.test"
+				} else if cn.Mode == "mitm-plain" {
+					target = "/" + id
 				}
 				if beh == bDown {
-					if tlsInside {
+					if tlsInside || cn.Mode == "mitm-plain" {
 						target, host = "/"+id, "down.test"
 					} else {
 						target, host = "http://down.test/"+id, "down.test"
@@ -625,7 +665,7 @@ func runOnce(c Case, T time.Duration) (v kit.Verdict) {
 						addf("C02/exchange/"+cn.Mode+"/wrong-body", "exchange %s (%s): body %q", id, beh, trunc(body, 60))
 					}
 				}
-				if beh == bResErr && !strings.Contains(strings.Join(res.Header["Warning"], " | "), "verif-reserr-"+id) {
+				if beh == bResErr && !strings.Contains(strings.Join(res.Header["Warning"], " | "), wantErrText(c.ErrValue, "reserr", id)) {
 					addf("C02/error/"+cn.Mode+"/response-error-not-in-warning", "exchange %s: response modifier returned an error but the client's Warning headers are %q", id, res.Header["Warning"])
 				}
 				if beh == bMutate && res.Header.Get("X-Mutated-Res") != id {
@@ -763,7 +803,7 @@ func runOnce(c Case, T time.Duration) (v kit.Verdict) {
 			if mine[0].seq < rq.seq {
 				v.Addf("C02/calls/"+kind+"/upstream-contact-before-request-modifier", "exchange %s reached the origin (t=%d) before its request modifier ran (t=%d)", e.id, mine[0].seq, rq.seq)
 			}
-			if e.beh == bReqErr && !strings.Contains(strings.Join(mine[0].hdr["Warning"], " | "), "verif-reqerr-"+e.id) {
+			if e.beh == bReqErr && !strings.Contains(strings.Join(mine[0].hdr["Warning"], " | "), wantErrText(c.ErrValue, "reqerr", e.id)) {
 				v.Addf("C02/error/"+kind+"/request-error-not-in-warning", "exchange %s: request modifier returned an error but the origin saw Warning %q", e.id, mine[0].hdr["Warning"])
 			}
 			if e.beh == bMutate && mine[0].hdr.Get("X-Mutated-Req") != e.id {
@@ -810,6 +850,10 @@ func genCase(t *rapid.T) Case {
 	var c Case
 	c.CloneRT = rapid.IntRange(0, 3).Draw(t, "clone_rt") == 0
 	c.MultilineErrors = rapid.Bool().Draw(t, "multiline_errors")
+	c.ErrValue = rapid.SampledFrom([]string{"", "", "", "eof", "closed-pipe", "timeout"}).Draw(t, "err_value")
+	if c.ErrValue != "" {
+		c.MultilineErrors = false
+	}
 	c.Shaped = rapid.IntRange(0, 4).Draw(t, "shaped") == 0
 	if family == "blind" && rapid.Bool().Draw(t, "via_downstream") {
 		c.Downstream = rapid.SampledFrom([]string{"plain", "credentials"}).Draw(t, "downstream")
@@ -818,6 +862,9 @@ func genCase(t *rapid.T) Case {
 		mode := family
 		if family != "plain" && c.Downstream == "" && rapid.IntRange(0, 2).Draw(t, "plain_too") == 0 {
 			mode = "plain"
+		}
+		if mode == "mitm" && rapid.IntRange(0, 3).Draw(t, "plain_inside") == 0 {
+			mode = "mitm-plain"
 		}
 		cn := Conn{Mode: mode}
 		if mode != "plain" {
@@ -891,6 +938,9 @@ func classes(c Case) []string {
 	}
 	if c.MultilineErrors {
 		set["multiline-errors"] = true
+	}
+	if c.ErrValue != "" {
+		set["error-value-"+c.ErrValue] = true
 	}
 	if c.Shaped {
 		set["traffic-shaped-listener"] = true
